@@ -18,7 +18,11 @@ dialect's default zone (UTC where the grammar says so, naive otherwise): the dat
 it, the time formats are tried in the table's order, `%H:%M` and `%H:%M:%S` leave unconverted data on the
 longer spellings and the right one matches.  `TimeTablesOK` is the fact about the tables this uses.
 
-Trailing `Z`, ODL zone offsets, date-times, leap seconds and the PDS3 restrictions are decided by the
+**`Z` means UTC** (`C14_timeZ_decodes`, `C14_time_roundtrip_odl_utc`): the same three spellings with a
+trailing `Z` are read as that time in UTC — this needs the *failure* of five formats to be proved, through
+all the back-tracking alternatives of `%H`, `%M`, `%S`.
+
+ODL zone offsets, date-times, leap seconds and the PDS3 millisecond spelling are decided by the
 generator's independent reading of each spelling against the real decoders and the model
 (`vlib/props/c14.py`); their theorems are open.
 -/
@@ -80,6 +84,32 @@ theorem C14_time_roundtrip_pvl (c : EncCfg) (hk : c.kind = .pvl ∨ c.kind = .is
       decodeDatetime c.d text = .ok (.time h mi s us (defaultTz c.d.g)) := by
   refine ⟨encodeTimeBase h mi s us, ?_, C14_time_decodes c.d hg h mi s us hv hp⟩
   rcases hk with hk | hk <;> rcases htz with rfl | rfl <;> simp [encodeValue, encodeSimple, encodeTime, hk]
+
+theorem timeTables6_ok : ∀ g ∈ [Gen.pvl, Gen.odl, Gen.pds, Gen.isis, Gen.omni], TimeTablesOK6 g = true := by
+  decide
+
+/-- **C14, `Z` means UTC**: `HH:MM[:SS[.ffffff]]Z` is decoded to the written clock fields in UTC by each
+    decoder class — the three formats without `Z` either leave the `Z` unconverted or fail at it, the
+    `Z` formats that are too short fail at the next field, and the right one matches -/
+theorem C14_timeZ_decodes (dc : Dec) (hg : TimeTablesOK6 dc.g = true) (h mi s us : Nat)
+    (hv : ValidTime h mi s us) (hp : dc.kind = .pds → us % 1000 = 0) :
+    decodeDatetime dc (encodeTimeBase h mi s us ++ [90]) = .ok (.time h mi s us (some 0)) := by
+  have hb := decodeDatetimeBase_timeZ dc.g hg h mi s us hv
+  unfold decodeDatetime
+  cases hk : dc.kind
+  · simp [hb]
+  · simp [hb, decodeDatetimeOdl]
+  · have := hp hk
+    simp [hb, this]
+  · simp [hb, decodeDatetimeOdl]
+
+/-- **C14, UTC times round-trip through the ODL encoder** (which writes the trailing `Z`) -/
+theorem C14_time_roundtrip_odl_utc (c : EncCfg) (hk : c.kind = .odl) (hg : TimeTablesOK6 c.d.g = true)
+    (h mi s us : Nat) (hv : ValidTime h mi s us) (hp : c.d.kind = .pds → us % 1000 = 0) :
+    ∃ text, encodeValue c (.time h mi s us (some 0)) = .ok text ∧
+      decodeDatetime c.d text = .ok (.time h mi s us (some 0)) := by
+  refine ⟨encodeTimeBase h mi s us ++ [90], ?_, C14_timeZ_decodes c.d hg h mi s us hv hp⟩
+  simp [encodeValue, encodeSimple, encodeTime, hk]
 
 /-- leap day: 29 February exists exactly in leap years (non-vacuity of `ValidDate` at its edge) -/
 example : ValidDate 2000 2 29 ∧ ¬ ValidDate 1900 2 29 ∧ ValidDate 1 1 1 ∧ ValidDate 9999 12 31 := by
